@@ -796,6 +796,12 @@ func staticDebugName(fn *ssa.Function, name string, val ssa.Value) bool {
 				if id, ok := d.Expr.(*ast.Ident); ok && id.Name == name {
 					return true
 				}
+				// a field map, written as in the source: wb.cachedForMerge
+				if se, ok := d.Expr.(*ast.SelectorExpr); ok {
+					if xid, ok := se.X.(*ast.Ident); ok && xid.Name+"."+se.Sel.Name == name {
+						return true
+					}
+				}
 			}
 		}
 	}
@@ -1771,8 +1777,8 @@ func (x *FnExec) mapUpdate(fr *Frame, v *ssa.MapUpdate, st *State, g *Term) {
 				continue
 			}
 			ev := x.specEnv(fr, st, x.entry, x.top)
-			ev.vars["key"] = TV{fr.val(v.Key), v.Key.Type()}
-			ev.vars["value"] = TV{fr.val(v.Value), v.Value.Type()}
+			ev.vars["mapkey"] = TV{fr.val(v.Key), v.Key.Type()}
+			ev.vars["mapval"] = TV{fr.val(v.Value), v.Value.Type()}
 			x.oblige("ASSERT", "at update of "+ma.Callee+": "+ma.Cl.Text, g, ev.evalBool(ma.Cl.E), v.Pos())
 			bumped = true
 		}
